@@ -213,7 +213,22 @@ func checkC18(c *Check) {
 					if d == nil || d.Op != "rcall" || d.S != "notifDataForAttrBasedErr" {
 						return "fallback data must be notifDataForAttrBasedErr(code, value)"
 					}
-					if cv, isC := d.Args[1].IsConst(); !isC || cv != code || d.Args[2].Key != b.Key {
+					valueOK := d.Args[2].Key == b.Key
+					if !valueOK && d.Args[2].Op == "phi" {
+						// the loop cursor over the value: in the iteration that
+						// rejects a value this short it still is the whole value
+						// (a cursor is the value on entry and only ever shrinks)
+						ownInstrs(fn, func(in ssa.Instruction) {
+							if ph, isPhi := in.(*ssa.Phi); isPhi && ph.Name()+"#" == d.Args[2].S {
+								for i, e := range ph.Edges {
+									if !ph.Block().Dominates(ph.Block().Preds[i]) && e == ssa.Value(fn.Params[2]) {
+										valueOK = true
+									}
+								}
+							}
+						})
+					}
+					if cv, isC := d.Args[1].IsConst(); !isC || cv != code || !valueOK {
 						return "fallback data must be built from this attribute's code and value"
 					}
 				}
